@@ -163,6 +163,92 @@ def judge(lines, out, rc, ndb):
     return None
 
 
+def lock_classes():
+    """the rank table of the theorem side (coq/CC/LockOrder.v, marked LOCK-CLASS-TABLE)"""
+    txt = open(os.path.join(vlib.VERIF, "coq", "CC", "LockOrder.v")).read()
+    m = re.search(r"Definition lock_classes[^=]*:=\s*\[(.*?)\]\.", txt, re.S)
+    return {a: int(b) for a, b in re.findall(r'\("(\w+)",\s*(\d+)\)', m.group(1))} if m else {}
+
+
+def lock_battery(rng, path, wal):
+    """every API call in the states that change which locks it needs: node split, file growth, node removal with page
+    release, database create / destroy, cursor writes, sync, checkpoint, metadata"""
+    L = ["open %s %d 0 1 0" % (path, wal), "db 0 1 000", "db 1 2 000"]
+    n = rng.choice([40, 80, 300])
+    for i in range(n):
+        L.append("put 0 %s 0 %s 0 0" % (("k%04d" % i).encode().hex(), rng.bytes(rng.choice([1, 50, 600])).hex()))
+    L.append("put 0 %s 0 %s 0 0" % (b"big".hex(), rng.bytes(rng.choice([70000, 300000])).hex()))
+    L.append("put 1 6161 0 62 0 0")
+    L += ["copen 1 0 1", "cto 1 3", "cget 1", "cto 1 3", "cset 1 %s" % rng.bytes(rng.choice([2, 900])).hex(), "cdel 1", "cto 1 4", "ckey 1", "cclose 1"]
+    L += ["copen 2 0 6 %s 0" % b"k0010".hex(), "cget 2", "cclose 2"]
+    for i in range(0, n, rng.choice([1, 2, 3])):
+        L.append("del 0 %s 0" % (("k%04d" % i).encode().hex()))
+    L += ["del 1 6161 0", "get 0 %s 0" % b"k0001".hex(), "sync", "checkpoint", "setmeta 0 %s" % rng.bytes(rng.choice([4, 5000])).hex(), "getmeta 0", "dump 0"]
+    L += ["dbdestroy 0", "db 0 1 000", "put 0 6161 0 62 0 0", "sync", "close", "open %s %d 0 0 0" % (path, wal), "db 0 1 000", "dump 0", "close"]
+    return L
+
+
+def lock_order_stage(run, work, nrandom):
+    """the rank discipline of the deadlock-freedom theorem, checked on the real lock acquisitions of the library"""
+    import kvcommon
+    ranks = lock_classes()
+    if not ranks:
+        run.broken.append("T1: lock class table not found in coq/CC/LockOrder.v")
+        return
+    ranks = dict(ranks, other=max(ranks.values()) + 1)
+    exe = vlib.build_harness("h_lockord")
+    scripts = []
+    for i in range(4):
+        rng = run.rng.fork()
+        scripts.append(("battery%d" % i, lock_battery(rng, os.path.join(work, "lb%d.db" % i), i % 2)))
+    for i in range(nrandom):
+        rng = run.rng.fork()
+        ls, meta = kvcommon.gen_script(rng, rng.choice(["map", "cursor", "struct", "reopen"]), rng.range(60, 200),
+                                       os.path.join(work, "lr%d.db" % i), allow_reopen=True)
+        scripts.append(("random%d" % i, ls))
+    seen = {}
+    for name, ls in scripts:
+        kvcommon.clean(ls)
+        rep = os.path.join(work, "lockord.out")
+        try:
+            os.unlink(rep)
+        except OSError:
+            pass
+        env = dict(os.environ, LOCKORD_OUT=rep)
+        p = subprocess.run([exe], input=("\n".join(ls) + "\nexit\n").encode(), stdout=subprocess.PIPE, stderr=subprocess.PIPE, env=env, timeout=300)
+        run.case("lockorder:" + "\n".join(ls), nontrivial=True, sample=None)
+        run.dist("lock-order scripts")
+        facts = open(rep).read().split("\n") if os.path.exists(rep) else []
+        if not facts or p.returncode not in (0,):
+            run.broken.append("lock-order tracer: no report / exit %s for %s" % (p.returncode, name))
+            continue
+        for f in facts:
+            t = f.split()
+            if not t:
+                continue
+            why = None
+            if t[0] == "EDGE":
+                hc, hm, ac, am, ctx = t[1], int(t[2]), t[3], int(t[4]), t[5]
+                seen[(hc, ac)] = seen.get((hc, ac), 0) + int(t[6])
+                if hc not in ranks or ac not in ranks:
+                    run.broken.append("lock-order tracer: unclassified lock object in `%s` (%s)" % (ctx, f))
+                elif not ranks[hc] < ranks[ac]:
+                    why = ("lock order: `%s` acquires the %s lock (%s) while holding the %s lock (%s) - against the rank order %s "
+                           "under which deadlock freedom is proved" % (ctx, ac, "write" if am else "read", hc, "write" if hm else "read",
+                                                                     " < ".join(k for k, _ in sorted(ranks.items(), key=lambda kv: kv[1]))))
+            elif t[0] == "SAME":
+                cls, hm, am, ctx = t[1], int(t[2]), int(t[3]), t[4]
+                if hm or am:
+                    why = "`%s` re-acquires the %s lock it already holds (held %s, requested %s): self-deadlock" % (
+                        ctx, cls, "write" if hm else "read", "write" if am else "read")
+                else:
+                    run.cov["recursive_read_acquisitions"] = run.cov.get("recursive_read_acquisitions", 0) + int(t[5])
+            if why:
+                run.violation({"kind": "lock-order", "script": ls, "fact": f, "harness": "h_lockord"}, why)
+    run.cov["lock_order_edges_seen"] = len(seen)
+    run.cov["lock_acquisitions_under_a_held_lock"] = sum(seen.values())
+
+
 def check(run):
     ok = run.proofs()
     bad = lock_order_facts()
@@ -192,6 +278,7 @@ def check(run):
                 run.violation({"scenario": lines, "output": out[:60], "kind": "concurrency", "stderr": err}, why)
             else:
                 run.cov["traces_validated_against_impl"] += 1
+        lock_order_stage(run, work, 12 if run.tier == "quick" else 300)
     finally:
         shutil.rmtree(work, ignore_errors=True)
     return run.finish(level=LEVEL,
@@ -203,6 +290,22 @@ def check(run):
 
 def replay(run, path):
     r = json.load(open(path))
+    if r.get("kind") == "lock-order":
+        import kvcommon
+        exe = vlib.build_harness("h_lockord")
+        work = tempfile.mkdtemp(prefix="iwkv-C07r-")
+        ls = list(r["script"])
+        old = ls[0].split()[1]
+        ls = [l.replace(old, os.path.join(work, "r.db")) for l in ls]
+        rep = os.path.join(work, "lockord.out")
+        subprocess.run([exe], input=("\n".join(ls) + "\nexit\n").encode(), stdout=subprocess.PIPE, stderr=subprocess.PIPE,
+                       env=dict(os.environ, LOCKORD_OUT=rep), timeout=300)
+        facts = open(rep).read().split("\n") if os.path.exists(rep) else []
+        shutil.rmtree(work, ignore_errors=True)
+        key = r["fact"].split()[:5]
+        hit = [f for f in facts if f.split()[:5] == key]
+        print("recorded fact:", r["fact"]); print("reproduced:", hit[:3])
+        return 1 if hit else 0
     exe = vlib.build_harness("h_conc")
     work = tempfile.mkdtemp(prefix="iwkv-C07r-")
     lines = list(r["scenario"])
